@@ -158,6 +158,16 @@ func buildCatalogue() {
 		err := g.UnmarshalJSON(b)
 		return g, err
 	}, "geojson")
+	addFree("GeoJSONFeature.UnmarshalJSON", func(b []byte) (geom.Geometry, interface{}, int, error) {
+		var f geom.GeoJSONFeature
+		err := f.UnmarshalJSON(b)
+		return f.Geometry, f.ID, len(f.Properties) + 100*len(f.ForeignMembers), err
+	}, "feature")
+	addFree("GeoJSONFeatureCollection.UnmarshalJSON", func(b []byte) (int, error) {
+		var fc geom.GeoJSONFeatureCollection
+		err := fc.UnmarshalJSON(b)
+		return len(fc), err
+	}, "featurecollection")
 	addFree("GeoJSONFeature.roundtrip", func(g geom.Geometry) (geom.Geometry, error) {
 		f := geom.GeoJSONFeature{Geometry: g, ID: 3, Properties: map[string]interface{}{"a": 1.0}}
 		b, err := f.MarshalJSON()
@@ -407,6 +417,8 @@ func drawArg(s *vs.Stream, p *pool, kind string) []int {
 		return []int{s.Intn(32, "a/twkb"), s.Intn(8, "a/pz"), s.Intn(8, "a/pm")}
 	case "wkb", "wkt", "geojson":
 		return []int{s.Intn(len(p.geoms), "a/g"), s.Intn(2*len(p.bufs)+1, "a/shared")}
+	case "feature", "featurecollection":
+		return []int{s.Intn(len(p.geoms), "a/g"), 1 + s.Intn(2*len(p.bufs), "a/shared")}
 	case "twkb":
 		return []int{s.Intn(len(p.geoms), "a/g"), s.Intn(8, "a/prec"), s.Intn(8, "a/twkb"), s.Intn(2*len(p.bufs)+1, "a/shared")}
 	case "matrix", "pattern":
@@ -638,6 +650,18 @@ func (env *execEnv) mat(kind string, a []int, e *opEntry, pos int) reflect.Value
 		}
 		b, _ := p.geoms[a[0]].MarshalJSON()
 		return scr(b)
+	case "feature", "featurecollection":
+		if sh := p.sharedBuf(kind, a[1]); sh != nil {
+			return reflect.ValueOf(sh)
+		}
+		f := geom.GeoJSONFeature{Geometry: p.geoms[a[0]], ID: "x", Properties: map[string]interface{}{"k": 1.5}}
+		var b []byte
+		if kind == "feature" {
+			b, _ = f.MarshalJSON()
+		} else {
+			b, _ = geom.GeoJSONFeatureCollection{f, f}.MarshalJSON()
+		}
+		return scr(b)
 	case "twkb":
 		if sh := p.sharedBuf(kind, a[3]); sh != nil {
 			return reflect.ValueOf(sh)
@@ -779,6 +803,7 @@ type opResult struct {
 	Aborts       int64
 	CBs          int64
 	Retained     bool
+	KeptOnly     bool            // results kept without any buffer reuse (not counted as a buffer-reuse fault)
 	Geoms        []geom.Geometry // geometry-valued results (candidates for publication to the next epoch)
 	RetainDigest string
 }
@@ -855,6 +880,20 @@ func execOp(op *opSpec, p *pool, scribbleNow bool) (res opResult) {
 		res.Digest = sb.String()
 	}()
 	res.Aborts, res.CBs = env.aborts, env.cbs
+	if !scribbleNow && res.Fault == "" && !res.Budget && outs != nil {
+		// the caller keeps what it was given (including byte slices) and looks
+		// at it again at the end of the run: nothing the library does later may
+		// change it
+		res.Retain = outs
+		var sb strings.Builder
+		for _, r := range outs {
+			digest(&sb, r, 0)
+			sb.WriteByte(';')
+		}
+		res.RetainDigest = sb.String()
+		res.Retained = true
+		res.KeptOnly = true
+	}
 	if scribbleNow && res.Fault == "" && !res.Budget {
 		// The call has returned: every buffer the caller passed in, and every
 		// slice it received, is the caller's to reuse (database/sql tells
